@@ -17,6 +17,8 @@ func checkC09(c *Ctx) {
 	r.Rule("R02.6", "(shared with C02) the pooled formatting buffer belongs to one record at a time: it goes back to the pool only after the Write that hands its bytes to the destination, and neither it nor the bytes taken from it are used afterwards")
 	r.Rule("R08.1", "(shared with C08) nothing on the print path writes memory that outlives the call other than the pooled objects of this call")
 	r.Rule("R08.2", "(shared with C08) slices that are sorted/compacted in place, and slots of the pooled attribute slice, belong to this call: never a handler's, logger's, group's or caller's backing array, and no stale element of an earlier call is exposed")
+	r.Rule("R09.4", "capacity independence: outside the buffer API no branch condition on the print path depends on cap() of the pooled buffer, on Cap()/Available() or on the result of tryGrowByReslice: the room a recycled buffer has left is history")
+	r.Rule("R08.3", "(shared with C08) the pooled objects of a record stay with that record: the attribute slice is taken and returned around the emission, and the formatting context is neither stored anywhere that outlives the call nor handed to an object the logger keeps for all its records")
 	r.Rule("R09.3", "per-record inputs are (re)assigned for every record: set()/setentry() definitely store the mode bits, layout, zone mode, value stringer, colours, level, message, attributes, timestamp and stack frame on every path")
 	r.Assume("user-supplied marshallers and value stringers leave the encoder's read offset and mode fields alone (they are outside the property's domain)")
 	for _, tags := range c.Configs([]string{""}, []string{"", "verbose", "hint"}) {
@@ -31,7 +33,8 @@ func checkC09(c *Ctx) {
 		}
 		c09Pooled(c, p, m, "R09.1", feasibleModes)
 		c09Globals(c, p, m)
-		c02Pool(c, p, m)
+		c09Capacity(c, p, m)
+		c08Pools(c, p, m)
 		c08Stores(c, p, m)
 		pooledObjectsFresh(c, p, "R08.1")
 	}
@@ -440,4 +443,73 @@ func c09Globals(c *Ctx, p *Prog, m *Model) {
 			}
 		}
 	}
+}
+
+// c09Capacity: R09.4 — how much room a recycled buffer happens to have left is history (it depends on the records
+// formatted before): it may decide WHERE bytes are put (the buffer API's own grow-or-reslice logic), never WHAT is
+// written. Outside the buffer API (the methods ported from bytes.Buffer and the package's grow helpers) no branch
+// condition on the print path depends on cap()/len() of the pooled buffer or on the "did it fit" result of
+// tryGrowByReslice.
+func c09Capacity(c *Ctx, p *Prog, m *Model) {
+	r := c.R
+	bufAPI := map[string]bool{"tryGrowByReslice": true, "grow": true, "Grow": true, "PreAlloc": true, "growSlice": true,
+		"Write": true, "WriteString": true, "WriteByte": true, "WriteRune": true, "ReadFrom": true, "WriteTo": true, "Truncate": true, "Reset": true,
+		"Read": true, "ReadByte": true, "ReadRune": true, "ReadBytes": true, "ReadString": true, "readSlice": true, "Next": true, "UnreadByte": true, "UnreadRune": true,
+		"Len": true, "Cap": true, "Available": true, "AvailableBuffer": true, "Bytes": true, "String": true, "empty": true}
+	var probs []string
+	n := 0
+	for fn := range printTree(p, m) {
+		if fn.Signature.Recv() != nil && typeName(fn.Signature.Recv().Type()) == "PrintCtx" && bufAPI[fn.Name()] {
+			continue
+		}
+		isCapacity := func(v ssa.Value) bool {
+			seen := map[ssa.Value]bool{}
+			var walk func(v ssa.Value, d int) bool
+			walk = func(v ssa.Value, d int) bool {
+				if v == nil || seen[v] || d > 6 {
+					return false
+				}
+				seen[v] = true
+				switch x := v.(type) {
+				case *ssa.Call:
+					if isBuiltinCall(x, "cap") {
+						if _, ok := isFieldLoadOf(strip(x.Common().Args[0]), "PrintCtx", "buf"); ok {
+							return true
+						}
+					}
+					if cal := calleeOf(x); cal != nil && cal.Signature.Recv() != nil && typeName(cal.Signature.Recv().Type()) == "PrintCtx" {
+						switch cal.Name() {
+						case "tryGrowByReslice", "Cap", "Available":
+							return true
+						}
+					}
+					return false
+				case *ssa.Extract:
+					return walk(x.Tuple, d+1)
+				case *ssa.BinOp:
+					return walk(x.X, d+1) || walk(x.Y, d+1)
+				case *ssa.UnOp:
+					return walk(x.X, d+1)
+				case *ssa.Phi:
+					for _, e := range x.Edges {
+						if walk(e, d+1) {
+							return true
+						}
+					}
+				}
+				return false
+			}
+			return walk(v, 0)
+		}
+		for _, b := range fn.Blocks {
+			if iff := ifOf(b); iff != nil {
+				n++
+				if isCapacity(iff.Cond) {
+					probs = append(probs, fmt.Sprintf("%s branches on the spare room of the pooled buffer at %s", shortName(fn), p.Pos(instrPos(iff))))
+				}
+			}
+		}
+	}
+	sort.Strings(probs)
+	r.Check(len(probs) == 0, "R09.4", "capacity-independent", "-", fmt.Sprintf("no branch outside the buffer API depends on the room left in the pooled buffer (%d branches scanned)", n), strings.Join(dedupStr(probs), "; ")+": which path a record takes (and so possibly its bytes) depends on how large the records formatted earlier with the same pooled buffer were")
 }
